@@ -3,13 +3,13 @@
 package rules
 
 import (
+	"net/http"
 	"net/url"
-	"strings"
 
 	"github.com/rs/zerolog"
 
 	"github.com/dadrus/heimdall/internal/config"
-	"github.com/dadrus/heimdall/internal/heimdall"
+	"github.com/dadrus/heimdall/internal/handler/requestcontext"
 	config2 "github.com/dadrus/heimdall/internal/rules/config"
 	"github.com/dadrus/heimdall/internal/rules/rule"
 	"github.com/dadrus/heimdall/internal/verifapi"
@@ -84,6 +84,10 @@ func vSegment(name string, shape int) (raw, decoded string) {
 	case 1:
 		e, d := encoded(name + ".e")
 		return e, string([]byte{d})
+	case 3: // an encoded octet followed by two letters (e.g. %25ab: the decoded value %ab looks encoded again)
+		e, d := encoded(name + ".e")
+		a, b := alpha(name+".a"), alpha(name+".b")
+		return e + string([]byte{a, b}), string([]byte{d, a, b})
 	default:
 		a := alpha(name + ".a")
 		e, d := encoded(name + ".e")
@@ -177,7 +181,11 @@ func verifC03(conditions bool) {
 		reqScheme = []string{"http", "https"}[verifapi.NondetChoice("req.scheme", 2)]
 	} else {
 		// which captured segment carries percent-encoding (both only in the thorough tier)
-		switch verifapi.NondetChoice("req.encoded", 5+2*verifapi.Bound("both_encoded", 0)) {
+		switch verifapi.NondetChoice("req.encoded", 7+2*verifapi.Bound("both_encoded", 0)) {
+		case 7:
+			shape1, shape3 = 1, 2
+		case 8:
+			shape1, shape3 = 2, 1
 		case 1:
 			shape1 = 1
 		case 2:
@@ -187,9 +195,9 @@ func verifC03(conditions bool) {
 		case 4:
 			shape3 = 2
 		case 5:
-			shape1, shape3 = 1, 2
+			shape1 = 3
 		case 6:
-			shape1, shape3 = 2, 1
+			shape3 = 3
 		}
 	}
 	raw1, dec1 := vSegment("req.seg1", shape1)
@@ -201,8 +209,13 @@ func verifC03(conditions bool) {
 		verifapi.Cover("unparsable-request-line")
 		return
 	}
-	u.Scheme, u.Host = reqScheme, reqHost
-	ctx := &vLookupCtx{req: &heimdall.Request{Method: reqMethod, URL: &heimdall.URL{URL: *u}}}
+	// the request view is the one the HTTP entry points build (requestcontext.New / extractURL)
+	hr := &http.Request{Method: reqMethod, URL: u, Host: reqHost, Header: http.Header{}, RemoteAddr: "192.0.2.1:4711"}
+	if reqScheme == "https" {
+		hr.Header.Set("X-Forwarded-Proto", "https") // from a trusted proxy; the middleware is not part of this harness
+	}
+	ctx := &vLookupCtx{req: requestcontext.New(hr).Request()}
+	u = &ctx.req.URL.URL
 
 	found, ferr := repo.FindRule(ctx)
 	matched := ferr == nil && found != nil
@@ -241,10 +254,6 @@ func verifC03(conditions bool) {
 	caps := ctx.req.URL.Captures
 	verifapi.Cover("captures-checked")
 	verifapi.Assert("C03/named-wildcards-exposed", len(caps) == 2)
-	// known finding: with an empty URL.RawPath the lookup runs on the decoded path and Execute decodes the
-	// captured values a second time (only visible if a decoded value still contains a percent sign)
-	verifapi.Region("KF-C03-captures-decoded-twice", u.RawPath == "" && strings.Contains(dec1, "%"))
 	verifapi.Assert("C03/single-wildcard-value-decoded", caps["name"] == dec1)
-	verifapi.Region("KF-C03-captures-decoded-twice", u.RawPath == "" && strings.Contains(dec3, "%"))
 	verifapi.Assert("C03/free-wildcard-value-decoded", caps["rest"] == dec3)
 }
